@@ -271,7 +271,7 @@ class Ctx:
 
 
 def _make_sim(sim, mesh, d, t):
-    """-> (simu, unknowns, kwargs for add_*, problemType for Bc_vector_Neumann, kwargs needed by add_volumeLoad)"""
+    """-> (simu, unknowns, {load name or '*': extra kwargs of the add_* call}, problemType for Bc_vector_Neumann or None)"""
     from EasyFEA import Models, Simulations
 
     if sim == "elastic":
